@@ -1,4 +1,4 @@
-'''Symbolic execution of the small straight-line / loop fragments that compute FLAT (ravelled) indices, strides and lengths.
+'''Abstract interpretation (polynomial value domain, no solver) of the small straight-line / loop fragments that compute FLAT (ravelled) indices, strides and lengths.
 
 Values are sa.algebra.Poly (over index symbols i0.. and axis lengths s0..), Python ints and Python lists of those.  Supported:
 assignment (names, tuple targets with one starred element), += and *=, `while <list>:` (until the list is empty), `for <targets> in
